@@ -153,7 +153,7 @@ def main():
         ],
         "checks": checks,
         "not_applicable": na,
-        "notes": "Technique family: static analysis only. Every check rebuilds its facts from /repo's current working tree (content hash of the sources keys the fact cache under /verif/.cache). Known findings: /verif/known_findings.json.",
+        "notes": "Technique family: static analysis only. Every check rebuilds its facts from /repo's current working tree (content hash of the sources keys the fact cache under /verif/.cache). Known findings: /verif/known_findings.json. The thorough tier ends with the checker's self-test for the property (seeded breaking and behaviour-preserving variants of the current tree re-analysed on a scratch copy; the rules re-run on the fact base with every variable name replaced, verdicts must not move); its results are recorded in the evidence and never change the exit code.",
     }
     with open(os.path.join(HERE, "MANIFEST.json"), "w") as fh:
         json.dump(m, fh, indent=1)
